@@ -1,8 +1,8 @@
 package props
 
 import (
-	"math"
 	"fmt"
+	"math"
 	"strconv"
 	"strings"
 	"time"
